@@ -132,7 +132,8 @@ def templates(tier, seed):
         tds.append(dict(fam="var-limit-source", form=form))
     for form in ("lowered-inside-nesting", "lowered-inside-loop", "lowered-to-current", "raised-inside-nesting"):
         tds.append(dict(fam="depth-limit-dynamic", form=form))
-    for form in ("same-value-after-lower-limit", "copy-of-group-attr", "copy-of-for-item", "copy-of-reuse-attr", "same-value-within-limit"):
+    for form in ("same-value-after-lower-limit", "copy-of-group-attr", "copy-of-for-item", "copy-of-reuse-attr", "same-value-within-limit", "several-values-each-within-limit", "swap-at-limit", "three-values-default-limit",
+                 "several-values-one-over"):
         tds.append(dict(fam="var-limit-copy", form=form))
     for form in ("config-in-body-lowers", "config-in-body-if", "config-in-body-raises", "config-in-nested"):
         tds.append(dict(fam="loop-limit-dynamic", form=form))
@@ -325,6 +326,11 @@ def build(td, wrong=False):
             "copy-of-group-attr": ('<svg><config var-limit="5"/><g s="0123456789"><var s="$s"/><rect xy="[[0]] 0" wh="1"/></g></svg>', "err"),
             "copy-of-for-item": ('<svg><config var-limit="5"/><for var="s" data="\'0123456789\'"><var s="$s"/><rect xy="[[0]] 0" wh="1"/></for></svg>', "err"),
             "copy-of-reuse-attr": ('<svg><config var-limit="5"/><specs><g id="t"><var s="$s"/><rect wh="1"/></g></specs><reuse href="#t" s="0123456789" x="[[0]]"/></svg>', "err"),
+            # the limit is per value, not per <var> element
+            "several-values-each-within-limit": ('<svg><config var-limit="10"/><var a="0123456789" b="abcdefghij" c="x"/><rect xy="[[0]] 0" wh="1" data-a="$a$b"/></svg>', "ok"),
+            "swap-at-limit": ('<svg><config var-limit="10"/><var a="0123456789"/><var b="abcdefghij"/><var a="$b" b="$a"/><rect xy="[[0]] 0" wh="1" data-a="$a"/></svg>', "ok"),
+            "three-values-default-limit": ('<svg><var a="%s" b="%s" c="%s"/><rect xy="[[0]] 0" wh="1"/></svg>' % ("a" * 400, "b" * 400, "c" * 400), "ok"),
+            "several-values-one-over": ('<svg><config var-limit="10"/><var a="1" b="0123456789x"/><rect xy="[[0]] 0" wh="1"/></svg>', "err"),
             "same-value-within-limit": ('<svg><var s="01234"/><config var-limit="5"/><var s="$s"/><rect xy="[[0]] 0" wh="1"/></svg>', "ok")}[form]
 
         def check(r):
